@@ -1391,6 +1391,19 @@ proof fn lemma_candidate_inj(pref: Seq<char>, j1: int, j2: int)
 }
 //@]
 
+//@[ C05 ghost: membership of a string in the set, by value or by its characters, is the same thing
+proof fn lemma_view_set_member(u: Set<String>)
+    ensures forall|k: String| #[trigger] u.contains(k) <==> view_set(u).contains(k@)
+{
+    assert forall|k: String| #[trigger] u.contains(k) <==> view_set(u).contains(k@) by {
+        if view_set(u).contains(k@) && !u.contains(k) {
+            let k0 = choose|k0: String| u.contains(k0) && k0@ == k@;
+            axiom_string_ext(k0, k);
+        }
+    }
+}
+//@]
+
 fn create_unique_identifier(preferred_name: &str, used: &mut HashSet<String>) -> /*@[*/(r: /*@]*/String/*@[*/)/*@]*/
     //@[ C05 C07 C14 create_unique_identifier: the result is a name not used so far, it is recorded as used, and the search terminates without overflow
     requires old(used)@.len() < 0x7fff_0000,
@@ -1404,6 +1417,7 @@ fn create_unique_identifier(preferred_name: &str, used: &mut HashSet<String>) ->
     //@[ proof
     let ghost u0 = used@;
     proof {
+        lemma_view_set_member(u0);
         assert forall|k: String| k@ == preferred_name@ implies view_set(#[trigger] u0.insert(k)) == view_set(u0).insert(preferred_name@) by { lemma_view_set_insert(u0, k); }
         if !view_set(u0).contains(preferred_name@) {
             assert forall|k: String| #[trigger] u0.contains(k) implies k@ != preferred_name@ by { if k@ == preferred_name@ { assert(view_set(u0).contains(k@)); } }
@@ -1422,7 +1436,8 @@ fn create_unique_identifier(preferred_name: &str, used: &mut HashSet<String>) ->
     loop
         //@[ C05 C07 loop invariant: every candidate from the first suffix up to i is taken, so i stays within the size of the set; the set is untouched
         invariant
-            used@ == u0, u0 == old(used)@, u0.len() < 0x7fff_0000, 0 <= lo <= 0xffff, lo <= ctr(i),
+            used@ =~= u0, u0 == old(used)@, u0.len() < 0x7fff_0000, 0 <= lo <= 0xffff, lo <= ctr(i),
+            forall|k: String| #[trigger] u0.contains(k) <==> view_set(u0).contains(k@),
             forall|j: int| lo <= j < ctr(i) ==> view_set(u0).contains(#[trigger] candidate(preferred_name@, j)),
             ctr(i) - lo <= u0.len(),
         decreases u0.len() + lo - ctr(i),
